@@ -344,12 +344,12 @@ pub fn run(tier: Tier) -> i32 {
         }
         systems.push(mk("A3-window-boundary", &[3, 4], vec![(b(3, 0), GENESIS), (b(4, 0), b(3, 0)), (b(4, 1), GENESIS)], vec![0, 4], false, "saw-a", 0));
     }
-    let depth = tier.pick(7, 10);
+    let depth = tier.pick(5, 10);
     let mut total = BfsStats::default();
     let mut per: Vec<Value> = Vec::new();
     let mut samples: Vec<Value> = Vec::new();
     for sys in &systems {
-        let limits = BfsLimits::new(depth, tier.pick(400_000, 30_000_000), tier.pick(5, 200));
+        let limits = BfsLimits::new(depth, tier.pick(400_000, 30_000_000), tier.pick(8, 200));
         let st = bfs(sys, &sys.inner.name, &limits, &report);
         println!(
             "  {}: states={} transitions={} depth_completed={} (reached {}) outcomes={} capped={:?}",
@@ -363,6 +363,51 @@ pub fn run(tier: Tier) -> i32 {
         per.push(j);
         samples.extend(st.samples.into_iter().take(1));
     }
+    // ---- two (three) real correct nodes reacting to each other
+    use crate::cluster::{ClusterAlphabet, ClusterSys};
+    let byz_votes = |slots: &[u64]| -> Vec<VoteSpec> {
+        slots.iter().flat_map(|s| [
+            VoteSpec { kind: N, slot: *s, blk: 0, signer: BYZ },
+            VoteSpec { kind: N, slot: *s, blk: 1, signer: BYZ },
+            VoteSpec { kind: S, slot: *s, blk: 0, signer: BYZ },
+        ]).collect()
+    };
+    let forge_for = |slots: &[u64]| -> Vec<(CK, u64, u8)> {
+        slots.iter().flat_map(|s| vec![(CK::Notar, *s, 0), (CK::Notar, *s, 1), (CK::NotarFb, *s, 0), (CK::NotarFb, *s, 1), (CK::Skip, *s, 0), (CK::Final, *s, 0), (CK::FastFinal, *s, 0)]).collect()
+    };
+    let k4 = Arc::new(make_epoch(&[19, 27, 27, 27]));
+    let clusters = vec![
+        ClusterSys::new(
+            "A3-two-real-nodes-slot1",
+            a3.clone(),
+            vec![NODE, V2],
+            BYZ,
+            ClusterAlphabet { byz_votes: byz_votes(&[1]), forge: forge_for(&[1]), blocks: slot1_blocks.clone(), invalid: vec![1], windows: vec![0] },
+        ),
+        ClusterSys::new(
+            "K4-three-real-nodes-slot1",
+            k4.clone(),
+            vec![1, 2, 3],
+            0,
+            ClusterAlphabet { byz_votes: byz_votes(&[1]), forge: forge_for(&[1]), blocks: slot1_blocks.clone(), invalid: vec![], windows: vec![0] },
+        ),
+    ];
+    let cdepth = tier.pick(4, 8);
+    for sys in &clusters {
+        let limits = BfsLimits::new(cdepth, tier.pick(400_000, 30_000_000), tier.pick(10, 300));
+        let st = bfs(sys, &sys.name, &limits, &report);
+        println!(
+            "  {}: states={} transitions={} depth_completed={} (reached {}) outcomes={} capped={:?}",
+            sys.name, st.states, st.transitions, st.depth_completed, st.max_depth_reached, st.distinct_outcomes, st.capped
+        );
+        st.merge_into(&mut total);
+        let mut j = st.to_json();
+        j["system"] = json!(sys.name);
+        j["real_nodes"] = json!(sys.nodes);
+        j["stakes"] = json!(sys.epoch.stakes);
+        per.push(j);
+        samples.extend(st.samples.into_iter().take(1));
+    }
     let cov = json!({
         "states": total.states,
         "transitions": total.transitions,
@@ -371,6 +416,7 @@ pub fn run(tier: Tier) -> i32 {
         "distinct_outcomes": total.distinct_outcomes,
         "exhaustive": false,
         "depth_bound": depth,
+        "cluster_depth_bound": cdepth,
         "capped": total.capped,
         "bound": "stakes [199 Byzantine, 401 correct node under test (real Votor + Pool), 400 other correct validator with a fixed legitimate persona: asleep / timed out / notarized block a / notarized block b]; all event sequences up to the depth bound over: every vote the Byzantine validator can sign, the persona's votes, every certificate the adversary can aggregate at that moment from really signed votes, two blocks per slot, InvalidBlock, timeouts, loop-back of own broadcasts; in every state in which the signed votes could support conflicting decisions, observers (fresh real pools) are fed all formable certificates in two orders",
         "families": per,
